@@ -84,7 +84,7 @@ def ematch_check(pc, neg, timeout_ms=8000, auto_config=True):
     return 'unknown'
 
 
-def check_valid(pc, goal, want_model=True, all_backends=False, z3_timeout_ms=None, ematch_probe=False):
+def check_valid(pc, goal, want_model=True, all_backends=False, z3_timeout_ms=None, ematch_probe=False, short=False):
     """-> dict(verdict=proved|refuted|unknown, backend, ms, model (z3 ModelRef|None), detail)."""
     t0 = time.time()
     neg = z3.Not(goal)
@@ -111,6 +111,12 @@ def check_valid(pc, goal, want_model=True, all_backends=False, z3_timeout_ms=Non
         res['verdict'] = 'unknown'
         res['detail'] = s.reason_unknown()
     verdicts[res['backend']] = res['verdict']
+    if short and res['verdict'] == 'unknown':
+        # several obligations of the same contract already went through the full budget of every back end
+        res['detail'] += ' (short budget: earlier obligations of this contract already exhausted all back ends)'
+        res['all'] = verdicts
+        res['ms'] = int((time.time() - t0) * 1000)
+        return res
     if res['verdict'] == 'unknown' or ematch_probe:
         # instantiation-only run (no model-based quantifier instantiation): terminates by saturation; 'unsat' is a
         # proof, 'unknown (incomplete quantifiers)' means no instance of the hypotheses contradicts the negated goal
